@@ -280,9 +280,9 @@ static int host_port_parse(const char *proto, const char *addr_s,
     const char *port_start = port_sep+PORT_SEP_LEN;
 
     char *end = NULL;
-    int lport = strtol(port_start, &end, 10);
+    long lport = strtol(port_start, &end, 10);
 
-    if (end[0] != '\0')
+    if (end == port_start || end[0] != '\0')
 	goto err_inval;
 
     if (lport < 0 || lport > 65535)
